@@ -1,4 +1,6 @@
 """C06 - Rebalance brings every child to its target weight (DESIGN 5/C06)."""
+import ast
+
 from .. import sym
 from ..evalfn import SELF
 from ..sym import canon
@@ -30,6 +32,16 @@ def ref(self, target, cname, weights, days_left):
 '''
 
 
+def _default_is_true(fi, pname):
+    a = fi.node.args
+    pos = a.posonlyargs + a.args
+    defaults = [None] * (len(pos) - len(a.defaults)) + list(a.defaults)
+    for p_, d_ in list(zip(pos, defaults)) + list(zip(a.kwonlyargs, a.kw_defaults)):
+        if p_.arg == pname:
+            return isinstance(d_, ast.Constant) and d_.value is True
+    return False
+
+
 def strip_versions(v):
     if isinstance(v, tuple):
         if v and v[0] == "fld" and len(v) == 4:
@@ -47,7 +59,12 @@ def rebalance_algo(chk, pid):
     rb = [e for e in S.calls("rebalance") if e.recv == TARGET]
     cl = [e for e in S.calls("close") if e.recv == TARGET]
     chk.need(rb, "%s no longer calls target.rebalance" % host)
-    chk.need(cl, "%s no longer closes non-target children" % host)
+    if not cl:
+        # the function is there but does not do what the property needs: a violation of the property, not a fault of the analysis
+        chk.ob("C06.R2", False, ALGOS, host, "close-loop", "every child of the target that is not among the targets is closed through the target itself (target.close(name)): "
+               "sub-strategies are children too and are de-funded as a whole", where=fi.where, expected="for every child not in targets: target.close(child name)",
+               found="no target.close(...) call")
+        return
     ref = chk.ref(BASE_REF, "Rebalance", module=ALGOS)
     rbase = ref.exits[-1][1]
     fi_atom = ("fld", TARGET, "_fixed_income", 0)
@@ -321,9 +338,23 @@ def close_flatten(chk, pid):
                    expected="for every child: allocate(-value) / transact(-position) unless already zero", found=short(amt, 120) if amt else "?", sample={"amount": short(amt, 120) if amt else None})
             okfi = sym.lit_holds(G(e), fld(SELF, "_fixed_income"), name == "fi")
             chk.ob("C16.R2", okfi, CORE, host2, "flatten-branch:%s" % name, "market-value strategies flatten by value, fixed-income ones by position", where=e.where)
+    if pid in ("C06", "C16", "C08"):
         sw = [w for w in F.writes(R.STALE) if canon(w.value) == canon(sym.TRUE)]
-        ok = bool(sw) and not plain(sw[-1].guard) and all(sw[-1].seq > e.seq for e in al + tr)
+        # as it is called everywhere - without arguments - flatten ends by marking the tree stale; an optional flag that defaults to doing so is fine as
+        # long as no caller inside the library turns it off
+        extra = [l for l in (lits(plain(sw[-1].guard)) if sw else [])]
+        params_on = all(a_[0] == "param" and p_ and _default_is_true(fi2, a_[1]) for a_, p_ in extra)
+        ok = bool(sw) and (not extra or params_on) and all(sw[-1].seq > e.seq for e in al + tr)
         chk.ob("C01.R6", ok, CORE, host2, "flatten-marks-stale", "flatten ends by marking the tree stale", where=fi2.where)
+        if extra and params_on:
+            flags = set(a_[1] for a_, _ in extra)
+            for g_ in chk.prog.all_functions(modules=(CORE, "bt/algos.py", "bt/backtest.py")):
+                for n_ in ast.walk(g_.node):
+                    if isinstance(n_, ast.Call) and isinstance(n_.func, ast.Attribute) and n_.func.attr == "flatten":
+                        passed = [k_ for k_ in n_.keywords if k_.arg in flags or k_.arg is None] + list(n_.args)
+                        okc = all(isinstance(getattr(x_, "value", x_), ast.Constant) and getattr(x_, "value", x_).value is True for x_ in passed)
+                        chk.ob("C01.R6", okc, g_.module, g_.qual, "flatten-called-with-refresh", "every liquidation through flatten() leaves the tree marked stale (no caller turns the mark off)",
+                               where="%s:%d" % (g_.module, n_.lineno), expected="flatten() / flatten(update=True)", found=ast.unparse(n_)[:80])
 
 
 def rebalance_over_time(chk, pid):
